@@ -7,7 +7,7 @@ EXTENDS ConnServe, Json
 BoolSet == {TRUE, FALSE}
 
 MkReq(v, c, k, h) == [ver |-> v, conn |-> c, kind |-> k, hclose |-> h]
-MkCfg(dk, mr, rmu, vs, kh) == [dk |-> dk, maxReqs |-> mr, rmu |-> rmu, viaServe |-> vs, keepHij |-> kh, perIP |-> FALSE, busy |-> FALSE]
+MkCfg(dk, mr, rmu, vs, kh) == [dk |-> dk, maxReqs |-> mr, rmu |-> rmu, viaServe |-> vs, keepHij |-> kh, perIP |-> FALSE, busy |-> FALSE, tls |-> FALSE]
 \* perIP: MaxConnsPerIP is set and the client has an IPv4 address: the server wraps the connection in its
 \* per-IP accounting connection, which must be invisible to everything modelled here
 WithPerIP(c) == [c EXCEPT !.perIP = TRUE]
@@ -31,6 +31,8 @@ CfgsC14base == { MkCfg(FALSE, mr, rmu, vs, FALSE) : mr \in {0, 2}, rmu \in BoolS
 \* busy: the server's Concurrency is exhausted by another connection when this one arrives
 CfgsC14 == CfgsC14base \cup { WithPerIP(c) : c \in CfgsC14base }
            \cup { [c EXCEPT !.busy = TRUE] : c \in { MkCfg(FALSE, 0, rmu, vs, FALSE) : rmu \in BoolSet, vs \in BoolSet } }
+           \* tls: the connection is a TLS connection (handshake bytes are not request bytes)
+           \cup { [c EXCEPT !.tls = TRUE] : c \in { MkCfg(FALSE, 0, rmu, vs, FALSE) : rmu \in BoolSet, vs \in BoolSet } }
 
 \* --- C17: hijack hand-over
 ReqsC17 == { MkReq("1.1", "none", "ok", FALSE), MkReq("1.1", "none", "hijack", FALSE),
